@@ -36,6 +36,10 @@ MUTANTS = [
     ("C19", R + "_engine.py", 'name = f"{prefix}_{self.relation_name_counter:04d}_{uuid.uuid4().hex}"', 'name = f"{uuid.uuid4().hex}_{prefix}_{self.relation_name_counter:04d}"', "get_relation_name puts the uuid before the prefix"),
     ("C19", R + "_leaf_relation.py", 'object.__setattr__(self, "name", self.engine.get_relation_name(name_prefix))', 'object.__setattr__(self, "name", name_prefix)', "leaf name is just the prefix"),
     ("C19", R + "_leaf_relation.py", 'object.__setattr__(self, "name", self.engine.get_relation_name(name_prefix))', 'object.__setattr__(self, "name", self.engine.get_relation_name())', "leaf name ignores the requested prefix"),
+    ("C10", R + "_marker_relation.py", "        if self.payload is None:\n            object.__setattr__(self, \"payload\", payload)\n        else:", "        if True:\n            object.__setattr__(self, \"payload\", payload)\n        else:", "attach_payload drops the None test"),
+    ("C10", R + "_marker_relation.py", "        if self.payload is None:\n            object.__setattr__(self, \"payload\", payload)", "        if self.payload is None:\n            object.__setattr__(self, \"payload\", payload)\n            object.__setattr__(self.target, \"payload\", payload)", "attach_payload also writes the target's payload"),
+    ("C10", R + "_relation.py", "        raise TypeError(f\"Cannot attach payload {payload} to relation {self}.\")", "        if payload is None:\n            raise TypeError(f\"Cannot attach payload {payload} to relation {self}.\")", "BaseRelation.attach_payload accepts non-None"),
+    ("C10", R + "_processor.py", "                original.attach_payload(payload)\n                if result is not original:", "                object.__setattr__(original, \"payload\", payload)\n                if result is not original:", "Processor writes a payload bypassing attach_payload"),
 ]
 
 
